@@ -160,3 +160,113 @@ func isRoute(err error) (string, bool) {
 	}
 	return "", false
 }
+
+// ---- aftermath: exceptional events between ordinary evaluations ----
+//
+// Every so often, BEFORE an ordinary evaluation, the harness makes the library fail in the same process: queries that
+// carry bindings and return an error half-way (an unbound variable in a later argument, an unknown function in a
+// predicate, a user function that fails on a later context node, a user function that panics after sibling axes were
+// walked) and a string-value that panics half-way (a caller-implemented Cursor whose Children() gives out). The
+// failures must be reported as errors - and must leave nothing behind: the ordinary evaluation that follows is
+// compared with the model like any other.
+
+type poisonCursor struct {
+	in   store.Cursor
+	fuse *int
+}
+
+func (v *poisonCursor) wrap(l []store.Cursor) []store.Cursor {
+	out := make([]store.Cursor, len(l))
+	for i, c := range l {
+		out[i] = &poisonCursor{c, v.fuse}
+	}
+	return out
+}
+func (v *poisonCursor) Pos() int                   { return v.in.Pos() }
+func (v *poisonCursor) Node() node.Node            { return v.in.Node() }
+func (v *poisonCursor) Namespaces() []store.Cursor { return v.wrap(v.in.Namespaces()) }
+func (v *poisonCursor) Attributes() []store.Cursor { return v.wrap(v.in.Attributes()) }
+func (v *poisonCursor) Parent() store.Cursor {
+	if p := v.in.Parent(); p != nil {
+		return &poisonCursor{p, v.fuse}
+	}
+	return nil
+}
+func (v *poisonCursor) Children() []store.Cursor {
+	*v.fuse--
+	if *v.fuse <= 0 {
+		panic("poisoned cursor: Children() gives out")
+	}
+	return v.wrap(v.in.Children())
+}
+
+var aftermathExprs []*xsel.Grammar
+var aftermathTick int
+var aftermathCount = map[string]int{}
+
+func aftermath(root store.Cursor) string {
+	if allRoutes {
+		// a replay: every exceptional event, then the query
+		for k := 0; k <= 6; k++ {
+			if m := aftermathEvent(root, k); m != "" {
+				return m
+			}
+		}
+		return ""
+	}
+	aftermathTick++
+	if aftermathTick%61 != 0 {
+		return ""
+	}
+	return aftermathEvent(root, (aftermathTick/61)%7)
+}
+
+func aftermathEvent(root store.Cursor, k int) (complaint string) {
+	defer func() {
+		if r := recover(); r != nil {
+			complaint = fmt.Sprintf("a failing query panicked out of Exec: %v", r)
+		}
+	}()
+	if aftermathExprs == nil {
+		for _, t := range []string{
+			"concat('id-', 'x', $nosuchvariable)",
+			"//*[nosuchfunction()]",
+			"//node()[flaky()]",
+			"//*/preceding-sibling::node()/boom()",
+			"/descendant-or-self::node()/following-sibling::*[boom()]",
+			"count(//* | //@*) + number(stale:x)",
+		} {
+			g := xsel.MustBuildExpr(t)
+			aftermathExprs = append(aftermathExprs, &g)
+		}
+	}
+	calls := 0
+	settings := []xsel.ContextApply{
+		xsel.WithNS("stalens", "urn:stale"), xsel.WithNS("p", "urn:stale"),
+		xsel.WithVariable("stalevar", xsel.Number(42)), xsel.WithVariable("n", xsel.String("stale")),
+		xsel.WithFunction("count", func(c xsel.Context, args ...xsel.Result) (xsel.Result, error) { return xsel.Number(-1), nil }),
+		xsel.WithFunction("flaky", func(c xsel.Context, args ...xsel.Result) (xsel.Result, error) {
+			calls++
+			if calls > 2 {
+				return nil, fmt.Errorf("flaky() fails on a later context node")
+			}
+			return xsel.Bool(true), nil
+		}),
+		xsel.WithFunction("boom", func(c xsel.Context, args ...xsel.Result) (xsel.Result, error) { panic("boom() panics") }),
+	}
+	if k < len(aftermathExprs) {
+		aftermathCount["failing-query-with-bindings"]++
+		res, err := xsel.Exec(root, aftermathExprs[k], settings...)
+		// (only #0 and #5 fail on every document: the others need an element, three nodes, a sibling)
+		if err == nil && (k == 0 || k == 5) {
+			return fmt.Sprintf("failing query #%d returned %s and no error", k, projectResult(res, nil))
+		}
+		return ""
+	}
+	// a string-value that panics half-way, over a caller-implemented Cursor
+	aftermathCount["string-value-panics-half-way"]++
+	fuse := 3
+	g := xsel.MustBuildExpr("concat(string(/), string-length(/), number(/*))")
+	xsel.Exec(&poisonCursor{root, &fuse}, &g)
+	return ""
+}
